@@ -344,6 +344,8 @@
 )]
 
 mod has_more;
+#[cfg(orx_concurrent_iter_verif)]
+pub mod verif_hooks;
 /// Module defining concurrent iterator traits and implementations.
 pub mod iter;
 mod next;
